@@ -638,9 +638,11 @@ impl ProxyServer {
         .await;
 
         // report as provision finished state
-        // true only if the finished_time_tick is greater than or equal to the query_time_tick
+        // true only if provision has finished (finished_time_tick 0 means still in progress) and
+        //          the finished_time_tick is greater than or equal to the query_time_tick
         //          or the secure channel is latched already
-        let report_provision_finished = provision_state.finished_time_tick >= query_time_tick
+        let report_provision_finished = (provision_state.finished_time_tick != 0
+            && provision_state.finished_time_tick >= query_time_tick)
             || provision_state.is_secure_channel_latched();
 
         let find_notify_header = request.headers().get(constants::NOTIFY_HEADER).is_some();
